@@ -137,6 +137,40 @@ KINDS = {
 KIND_NAMES = list(KINDS)
 CALL_LIMIT = 400
 MAX_DEPTH = 2
+# weak_args / user_args are documented (and annotated) as iterables: the kinds of iterable handed over
+CONTS = ("list", "tuple", "iter")
+SIGNALS_FILE = usignals.Signals.emit.__code__.co_filename
+
+
+def _container(kind, items):
+    """``items`` (a fresh list) as the iterable given to urwid; "iter" is a one-shot generator"""
+    if kind == "tuple":
+        return tuple(items)
+    if kind == "iter":
+        return (x for x in items)
+    return items
+
+
+class Injector:
+    """'a weak argument is garbage-collected at any moment': at the k-th source line of urwid/signals.py
+    executed (at any nesting depth) while one top-level operation runs, the harness lets go of one weak
+    argument and runs gc.collect().  Line events of sys.settrace; only frames of signals.py are traced."""
+
+    def __init__(self, state, k, j):
+        self.state, self.k, self.j, self.n, self.fired = state, k, j, 0, False
+
+    def global_trace(self, frame, event, arg):
+        if frame.f_code.co_filename == SIGNALS_FILE:
+            return self.local_trace
+        return None
+
+    def local_trace(self, frame, event, arg):
+        if event == "line":
+            n, self.n = self.n, self.n + 1
+            if n == self.k and not self.fired:
+                self.fired = True
+                self.state.drop_weak_injected(self.j, frame)
+        return self.local_trace
 
 
 def _make_sender(kind):
@@ -196,6 +230,10 @@ class State:
         self.ncid = 0
         self.deferred = None
         self.unraisable = []
+        self.armed = None  # (k, j): injection for the next top-level op
+        self.trace_lines = 0  # line events of signals.py seen during the last op run under an Injector
+        self.injected = []  # (label, "function:lineno") of the injections that fired
+        self.tainted = set()  # slots on which disconnect / disconnect_by_key was interrupted by such a death
         self.cbs = []
         for h, hs in enumerate(self.hspecs):
             if hs.get("method"):
@@ -254,6 +292,37 @@ class State:
                     f"(connections: {self.describe()})",
                 )
 
+    def drop_weak_injected(self, j, frame):
+        """called from the trace function, i.e. from the middle of one of urwid's signal functions: the
+        j-th (modulo) live weak argument loses its only strong reference of the harness.  The function
+        interrupted (or the harness frame that called it) may itself hold the object as an argument of
+        the call in progress; then it has to be dead when the top-level operation is over."""
+        alive = [k for k, o in enumerate(self.pool) if o is not None]
+        if not alive:
+            return
+        k = alive[j % len(alive)]
+        o = self.pool[k]
+        label, ref = o.label, self.wrefs[k]
+        self.pool[k] = None
+        fname = frame.f_code.co_name
+        where = f"{fname}:{frame.f_lineno}"
+        self.injected.append((label, where))
+        if fname in ("disconnect", "disconnect_by_key"):
+            # diagnosis only (known finding C14-disconnect-iterates-live-list): the slot whose handler list
+            # the interrupted function is working on, if the dying argument belongs to a connection of it
+            loc = frame.f_locals
+            obj, name = loc.get("obj"), loc.get("name")
+            for slot, lst in self.model.items():
+                if self.senders[slot[0]] is obj and self.name(*slot) == name and any(label in c.wk for c in lst):
+                    self.tainted.add(slot)
+            del loc, obj
+        _count("dyn:weak-arg-died-inside-signal-function")
+        _count("dyn:died-in:" + where.split(":")[0])
+        del o
+        gc.collect()
+        if ref() is not None:
+            self.pending.append((label, ref))
+
     def end_of_top_level_op(self):
         if self.pending:
             gc.collect()
@@ -308,12 +377,24 @@ class State:
         uargs = list(hs["uargs"])
         if tag:
             uargs.append(f"#{self.ncid}")
-        kw = {}
+        cont, mut = hs.get("cont", "list"), hs.get("mut", 0)
+        kw, passed = {}, []
         if wobjs:
-            kw["weak_args"] = wobjs
+            passed.append(list(wobjs))
+            kw["weak_args"] = _container(cont, passed[-1])
         if uargs:
-            kw["user_args"] = uargs
+            passed.append(list(uargs))
+            kw["user_args"] = _container(cont, passed[-1])
         key = self.connect(self.senders[s], self.name(s, n), self.callback(h), **kw)
+        if mut:
+            # the caller goes on using the lists it built: the connection keeps "the arguments given at
+            # connect time" (with tuple / generator there is nothing to change afterwards)
+            for lst in passed:
+                if mut == 1:
+                    lst.append("late")
+                else:
+                    lst.clear()
+        del passed
         c = Conn()
         c.cid, self.ncid = self.ncid, self.ncid + 1
         c.h, c.slot, c.key = h, (s, n), key
@@ -321,9 +402,10 @@ class State:
         c.widx = tuple(hs["weak"])
         c.uargs = tuple(uargs)
         c.sig = (h, *(("W", lbl) for lbl in c.wk), *c.uargs)
-        del wobjs
         self.keys.append(((s, n), self.sgen[s], key))
         self.model_add(c)
+        # only now: a weak argument the harness let go of while connect() was running (Injector) dies here
+        del wobjs
         return c
 
     def do_disconnect_conn(self, conn, via):
@@ -338,17 +420,19 @@ class State:
             _count("dyn:args-disconnect-replaced-by-key")
         if via == "args":
             kw = {}
+            dcont = self.hspecs[conn.h].get("dcont", "list")
             if conn.wk:
-                kw["weak_args"] = self.weak_objs_of(conn)
+                kw["weak_args"] = _container(dcont, self.weak_objs_of(conn))
             if conn.uargs:
-                kw["user_args"] = list(conn.uargs)
+                kw["user_args"] = _container(dcont, list(conn.uargs))
             self.disconnect(self.senders[s], self.name(s, n), self.callback(conn.h), **kw)
         else:
             self.disconnect_by_key(self.senders[s], self.name(s, n), conn.key)
-        if connected:
-            self.model_remove(conn)
-        else:
+        if not connected:
             _count("dyn:noop-disconnect")
+        elif any(c is conn for c in self.model.get(conn.slot, ())):
+            self.model_remove(conn)
+        # else: one of its weak arguments died while the call was in progress (model updated by on_death)
 
     def do_emit(self, s, n, eargs):
         fr = Frame()
@@ -381,20 +465,22 @@ class State:
         sig = (h, *((("W", a.label) if isinstance(a, W) else a) for a in head))
         if sig not in fr.ok:
             want = [list(c.sig[1:]) for c in fr.S + fr.added if c.h == h]
-            if want:
+            was = sig in self.gone_sigs.get(fr.slot, ())
+            if want and not was:
                 raise Violation(
                     "arguments",
                     f"handler {h} connected to {fr.slot} with weak+user arguments {want} was called with "
                     f"{self.show(args)} (emitted arguments {list(fr.eargs)})",
                 )
-            was = sig in self.gone_sigs.get(fr.slot, ())
-            raise Violation(
+            v = Violation(
                 "disconnected-not-called" if was else "unconnected-not-called",
                 f"handler {h} was called with {self.show(args)} by emit{fr.slot} but "
                 + ("had been disconnected (or its weak argument had died) before the emit started"
                    if was else "is not connected to that sender and name")
                 + f"; connected at emit start: {[list(c.sig) for c in fr.S]}",
             )
+            v.slot = fr.slot
+            raise v
         fr.calls.append(sig)
         # which connection is "me": the first connection of the slot with this signature that no earlier
         # call of this emit has been attributed to (still connected ones first)
@@ -511,7 +597,9 @@ class State:
                 if self.deferred is None:
                     self.deferred = Violation("throughout-once-in-order:skipped-after-removal-during-emit", detail)
                 return
-            raise Violation("throughout-once-in-order:not-called", detail)
+            v = Violation("throughout-once-in-order:not-called", detail)
+            v.slot = fr.slot
+            raise v
         if any(got.count(x) > t_sigs.count(x) for x in want):
             raise Violation("throughout-once-in-order:called-more-than-once", detail)
         raise Violation("throughout-once-in-order:order", detail)
@@ -541,6 +629,13 @@ def run_machine(case):
     try:
         _run_ops(state, case["ops"])
         _final_liveness(state)
+    except Violation as v:
+        if state.injected:
+            note = f" [weak arguments collected inside signal functions (label, function:line): {state.injected}]"
+            v.message += note
+            v.args = (v.args[0] + note,)
+        v.injected, v.tainted = list(state.injected), set(state.tainted)
+        raise
     finally:
         sys.unraisablehook = old_hook
         # break the harness's own cycles so that nothing of this case survives
@@ -549,13 +644,34 @@ def run_machine(case):
         state.senders = []
         state.model = {}
     if state.deferred is not None:
+        state.deferred.injected, state.deferred.tainted = list(state.injected), set(state.tainted)
         raise state.deferred
+    return state
 
 
 def _run_ops(state, ops):
     for op in ops:
-        _do_op(state, op)  # its own scope: no local of one op keeps an object alive during the next
+        if op[0] == "arm":
+            # during the next operation, at its op[1]-th line inside urwid/signals.py, weak argument op[2] dies
+            state.armed = (op[1], op[2])
+            continue
+        if state.armed is not None:
+            (k, j), state.armed = state.armed, None
+            _do_op_injected(state, op, k, j)
+        else:
+            _do_op(state, op)  # its own scope: no local of one op keeps an object alive during the next
         state.end_of_top_level_op()
+
+
+def _do_op_injected(state, op, k, j):
+    inj = Injector(state, k, j)
+    old = sys.gettrace()
+    sys.settrace(inj.global_trace)
+    try:
+        _do_op(state, op)
+    finally:
+        sys.settrace(old)
+        state.trace_lines = inj.n
 
 
 def _do_op(state, op):
@@ -593,10 +709,11 @@ def _do_op(state, op):
         elif not conns:
             hs = state.hspecs[h]
             kw = {}
+            dcont = hs.get("dcont", "list")
             if hs["weak"]:
-                kw["weak_args"] = [state.weak_obj(k) for k in hs["weak"]]
+                kw["weak_args"] = _container(dcont, [state.weak_obj(k) for k in hs["weak"]])
             if hs["uargs"]:
-                kw["user_args"] = list(hs["uargs"])
+                kw["user_args"] = _container(dcont, list(hs["uargs"]))
             state.disconnect(state.senders[s], state.name(s, n), state.callback(h), **kw)
             _count("dyn:noop-disconnect")
         else:
@@ -673,6 +790,9 @@ BEH_NAMES = list(BEHAVIOURS)
 LIST_CHANGING = {"disc_self", "disc_prev", "disc_next", "conn_new"}
 # argument shapes of the three handlers (the args sub-check sweeps all shapes)
 HIST_ARGS = [([], []), ([0], ["u1"]), ([], ["u2", 2])]
+# how the handlers hand their arguments over: handler 1 connects with one-shot generators and disconnects
+# with lists, handler 2 connects with a list it changes afterwards and disconnects with a tuple
+HIST_CONT = [{}, {"cont": "iter", "dcont": "list"}, {"cont": "list", "mut": 1, "dcont": "tuple"}]
 
 
 def hist_to_machine(case):
@@ -680,10 +800,11 @@ def hist_to_machine(case):
     for i, b in enumerate(case["beh"]):
         beh, ret = BEHAVIOURS[b]
         weak, uargs = HIST_ARGS[i]
-        handlers.append({"beh": beh, "ret": ret, "weak": weak, "uargs": uargs, "method": i == 2})
+        handlers.append({"beh": beh, "ret": ret, "weak": weak, "uargs": uargs, "method": i == 2, **HIST_CONT[i]})
     while len(handlers) < 3:
         weak, uargs = HIST_ARGS[len(handlers)]
-        handlers.append({"beh": ["plain"], "ret": None, "weak": weak, "uargs": uargs, "method": False})
+        handlers.append({"beh": ["plain"], "ret": None, "weak": weak, "uargs": uargs, "method": False,
+                         **HIST_CONT[len(handlers)]})
     handlers.append({"beh": ["plain"], "ret": None, "weak": [], "uargs": [], "method": False})  # leaf
     ops = []
     for i, op in enumerate(case["ops"]):
@@ -771,6 +892,9 @@ def _hist_classes(case):
 # args: exhaustive argument shapes
 
 
+ARG_CONTS = [("list", 0), ("list", 1), ("list", 2), ("tuple", 0), ("iter", 0)]
+
+
 def args_cases():
     for api in ("global", "instance"):
         for kind in KIND_NAMES:
@@ -779,12 +903,32 @@ def args_cases():
                     for nu in range(3):
                         for ne in range(3):
                             yield {"api": api, "kind": kind, "method": method, "nw": nw, "nu": nu, "ne": ne}
+    # how the arguments are handed over: iterable kind at connect (a list is left alone, extended or
+    # emptied by the caller afterwards) x iterable kind at disconnect(args); sender kind / API do not matter here
+    for cont, mut in ARG_CONTS:
+        for dcont in CONTS:
+            if (cont, mut, dcont) == ("list", 0, "list"):
+                continue  # the sweep above
+            for method in (False, True):
+                for nw in range(3):
+                    for nu in range(3):
+                        if nw + nu:
+                            yield {"api": "global", "kind": "meta", "method": method, "nw": nw, "nu": nu,
+                                   "ne": (nw + nu) % 3, "cont": cont, "mut": mut, "dcont": dcont}
+
+
+def _args_classes(c):
+    out = [f"args:w{c['nw']}u{c['nu']}e{c['ne']}"]
+    if "cont" in c:
+        out.append(f"args:connect-{c['cont']}{['', '+append', '+clear'][c['mut']]}:disconnect-{c['dcont']}")
+    return out
 
 
 def check_args(case):
     nw, nu, ne = case["nw"], case["nu"], case["ne"]
     h0 = {"beh": ["plain"], "ret": 1 if nu == 1 else None, "weak": list(range(nw)),
-          "uargs": [["u", 7][i] for i in range(nu)], "method": case["method"]}
+          "uargs": [["u", 7][i] for i in range(nu)], "method": case["method"],
+          "cont": case.get("cont", "list"), "mut": case.get("mut", 0), "dcont": case.get("dcont", "list")}
     h1 = {"beh": ["plain"], "ret": None, "weak": [], "uargs": [], "method": not case["method"]}
     eargs = [[11, "e"][i] for i in range(ne)]
     e00, e01, e10 = ["e", 0, 0, eargs], ["e", 0, 1, eargs], ["e", 1, 0, eargs]
@@ -798,6 +942,73 @@ def check_args(case):
         ["dw", 0], e00, e01, ["cbad", 0, 0], ["cbad", 0, 1],
     ]
     run_machine({"api": case["api"], "senders": [case["kind"], "meta"], "handlers": [h0, h1], "ops": ops})
+
+
+# ---------------------------------------------------------------------------------------------
+# moment: one operation x every line of urwid/signals.py it executes x every weak argument that may die there
+
+MOMENT_HANDLERS = [
+    {"beh": ["plain"], "ret": None, "weak": [0], "uargs": ["u"], "method": False},
+    {"beh": ["plain"], "ret": None, "weak": [1], "uargs": [], "method": True, "cont": "iter"},
+    {"beh": ["plain"], "ret": None, "weak": [2], "uargs": ["v", 5], "method": False, "cont": "tuple"},
+    {"beh": ["plain"], "ret": True, "weak": [3], "uargs": ["n"], "method": False},  # connected under injection
+    {"beh": ["plain"], "ret": 1, "weak": [], "uargs": [], "method": True},  # connected afterwards
+]
+# three connections on slot (0, 0) (weak arguments 0, 1, 2 = first / middle / last), one on slot (0, 1)
+MOMENT_PREFIX = [["c", 0, 0, 0, 0], ["c", 0, 0, 1, 0], ["c", 0, 0, 2, 0], ["c", 0, 1, 1, 1]]
+MOMENT_OPS = {
+    "connect": ["c", 0, 0, 3, 0],
+    "connect-other-name": ["c", 0, 1, 3, 0],
+    "connect-other-sender": ["c", 1, 0, 3, 0],
+    "connect-unregistered": ["cbad", 0, 0],
+    "disconnect-args-first": ["d", 0, 0, 0],
+    "disconnect-args-middle": ["d", 0, 0, 1],
+    "disconnect-args-last": ["d", 0, 0, 2],
+    "disconnect-args-unconnected": ["dh", 0, 0, 4],
+    "disconnect-key-first": ["k", 0, 0],
+    "disconnect-key-middle": ["k", 1, 0],
+    "disconnect-key-last": ["k", 2, 0],
+    "disconnect-key-other-name": ["k", 0, 2],
+    "emit": ["e", 0, 0, [1]],
+    "emit-other-name": ["e", 0, 1, []],
+}
+MOMENT_SUFFIX = [
+    ["e", 0, 0, [7]], ["e", 0, 1, []], ["e", 1, 0, [8]],
+    ["c", 0, 0, 4, 0], ["e", 0, 0, []],  # the machinery still takes new connections on that slot
+    ["dh", 0, 0, 3], ["dh", 0, 0, 4], ["e", 0, 0, [9]],
+]
+MOMENT_KINDS = ("meta", "list", "edit")
+
+
+def moment_to_machine(case):
+    ops = [*MOMENT_PREFIX, ["arm", case["k"], case["victim"]], MOMENT_OPS[case["op"]], *MOMENT_SUFFIX]
+    return {"api": case["api"], "senders": [case["kind"], "reg"], "handlers": MOMENT_HANDLERS, "ops": ops}
+
+
+def check_moment(case):
+    state = run_machine(moment_to_machine(case))
+    if case.get("must_fire") and not state.injected:
+        raise Discard()  # the operation executed fewer lines than when the sweep was laid out
+
+
+def moment_cases():
+    """the number of lines each operation executes is measured on the tree under test (one run with an
+    injection point that is never reached); every line index below it x every victim is then a case"""
+    for api in ("global", "instance"):
+        for kind in MOMENT_KINDS:
+            for op in MOMENT_OPS:
+                probe = {"api": api, "kind": kind, "op": op, "k": 10**6, "victim": 0}
+                try:
+                    nlines = run_machine(moment_to_machine(probe)).trace_lines
+                except Exception:  # noqa: BLE001  the tree under test fails without any injection: other subs report it
+                    nlines = 40
+                for k in range(nlines):
+                    for victim in range(4):
+                        yield {"api": api, "kind": kind, "op": op, "k": k, "victim": victim, "must_fire": 1}
+
+
+def _moment_classes(case):
+    return [f"moment:{case['op']}", f"moment:victim{case['victim']}"]
 
 
 # ---------------------------------------------------------------------------------------------
@@ -821,6 +1032,9 @@ _handler = st.fixed_dictionaries(
         "weak": st.lists(st.integers(0, 2), max_size=2),
         "uargs": st.lists(st.sampled_from(["u", "v", 5]), max_size=2),
         "method": st.booleans(),
+        "cont": st.sampled_from(["list", "list", "tuple", "iter"]),
+        "mut": st.sampled_from([0, 0, 1, 2]),
+        "dcont": st.sampled_from(CONTS),
     }
 )
 _h = st.integers(0, 4)
@@ -837,6 +1051,8 @@ _op = st.one_of(
     st.tuples(st.just("ds"), _bit),
     st.tuples(st.just("cbad"), _bit, _bit),
     st.tuples(st.just("gc")),
+    # the next operation is interrupted at its k-th line inside urwid/signals.py: a weak argument dies there
+    st.tuples(st.just("arm"), st.one_of(st.integers(0, 12), st.integers(0, 60)), st.integers(0, 2)),
 ).map(list)
 
 _machine_case = st.fixed_dictionaries(
@@ -857,7 +1073,7 @@ def _machine_nontrivial(case):
     nh = len(case["handlers"])
     connected = {o[3] % nh for o in case["ops"] if o[0] == "c"}
     return any(case["handlers"][h]["beh"][0] in _CHANGING_BEH for h in connected) or any(
-        o[0] == "dw" for o in case["ops"]
+        o[0] in ("dw", "arm") for o in case["ops"]
     )
 
 
@@ -870,6 +1086,7 @@ def _machine_classes(case):
     out.update(f"machine:op:{o[0]}" for o in case["ops"])
     if any(case["handlers"][h]["weak"] for h in connected):
         out.add("machine:weak-args-connected")
+    out.update(f"machine:cont:{case['handlers'][h].get('cont', 'list')}" for h in connected)
     return sorted(out)
 
 
@@ -886,7 +1103,7 @@ def check_machine(case):
         gc.unfreeze()
 
 
-SUBS = {"hist": check_hist, "args": check_args, "machine": check_machine}
+SUBS = {"hist": check_hist, "args": check_args, "moment": check_moment, "machine": check_machine}
 
 
 def shard(ctx):
@@ -897,8 +1114,12 @@ def shard(ctx):
     gc.collect()
     gc.freeze()
     try:
-        ctx.sweep("args", args_cases(), classify=lambda c: [f"args:w{c['nw']}u{c['nu']}e{c['ne']}"],
+        ctx.sweep("args", args_cases(), classify=_args_classes,
                   exhaustive_name="argument shapes")
+        if ctx.failure is not None:
+            return
+        ctx.sweep("moment", moment_cases(), classify=_moment_classes,
+                  exhaustive_name="one operation x every line of signals.py it executes x dying weak argument")
         if ctx.failure is not None:
             return
         if ctx.tier == "quick":
@@ -936,4 +1157,20 @@ def _known_emit_skips(sub, case, v):
     return False
 
 
-KNOWN = {"C14-emit-skips-after-removal": _known_emit_skips}
+def _known_disconnect_live_list(sub, case, v):
+    """disconnect() walks the live handler list with a for loop and disconnect_by_key() with a list
+    comprehension; when a weak argument of a connection of that very list dies between two iterations
+    (its weakref callback edits the list in place) the walk skips an entry: disconnect() does not find
+    the handler it was asked to remove, disconnect_by_key() writes back a list that lacks a connected
+    handler.  Matches only violations on a slot where the harness made such a death happen inside
+    disconnect / disconnect_by_key (sub-check moment, op "arm" of machine)."""
+    if v.clause not in ("disconnected-not-called", "throughout-once-in-order:not-called"):
+        return False
+    slot = getattr(v, "slot", None)
+    return slot is not None and slot in getattr(v, "tainted", ())
+
+
+KNOWN = {
+    "C14-emit-skips-after-removal": _known_emit_skips,
+    "C14-disconnect-iterates-live-list": _known_disconnect_live_list,
+}
